@@ -138,8 +138,12 @@ def eval_case(case: dict) -> dict:
     cnt = {"pages_exactly_full": 0, "single_row_overflow_pages": 0}
     keep = (P.norm_gamma(g)["font"], P.norm_gamma(g)["size"]) != (1, 9)
 
+    ntn = [0]
+
     def visit(hist, obs, parent):
         check_obs(g, hist, obs, viol, cnt)
+        if not obs.error and len(obs.pages) >= 2:
+            ntn[0] += 1
         obs.doc = obs.built = None
 
     stats = P.explore(g, case, visit, keep_doc=keep)
@@ -155,7 +159,7 @@ def eval_case(case: dict) -> dict:
     cnt.pop("x", None)
     if case["mode"] == "bfs":
         cnt["bfs_max_history_len"] = stats["max_len"]
-    return {"viol": list(best.values()), "nt": stats["observations"] > 1, "cnt": {k: v for k, v in cnt.items() if v},
+    return {"viol": list(best.values()), "nt_n": ntn[0], "cnt": {k: v for k, v in cnt.items() if v},
             "evals": stats["observations"], "states": len(stats["states"]), "transitions": len({(s, e) for s, e, _, _ in stats["trans"]})}
 
 
@@ -206,12 +210,16 @@ def plan(run):
     run.rule = ("per layout gamma (strategy x levels x nrow x header mode {none, explicit, two-row, default-from-column-names} x footnote/source "
                 "{absent, table, paragraph} x placement x body font/size): every history of row events (heights realised at the cell's own font/size, "
                 "group change per level) up to the depth, unmerged; then BFS closure over abstract page states to a fixpoint (long documents). "
-                "states/transitions = abstract page states / (state,event) pairs observed; evaluations = documents executed")
+                "states/transitions = abstract page states / (state,event) pairs observed; evaluations = documents executed; non-trivial = distinct histories whose document has >= 2 pages")
     run.assumptions = ["lb(row) is a lower bound on wrapped lines from font metrics; heading, header and footnote/source table rows count 1 line each (short tags)",
                        "a page holding exactly one data row is exempt (the property's only exception)"]
     cases = []
     for g, depth in gammas(run):
-        cases += P.split_cases(g, depth, bfs=True, bfs_caps=(300, 40) if quick else (3000, 150), split_at=6)
+        gn = P.norm_gamma(g)
+        # group values may also be the divider '-----' or null (neither renders a heading; neither may cost a row)
+        special = gn["strategy"] == "page_by" and gn["L"] <= 2 and not gn["new_page"]
+        cases += P.split_cases(g, depth if not special else max(4, depth - 1), bfs=True, bfs_caps=(300, 40) if quick else (3000, 150), split_at=6,
+                               divider=special, nulls=special)
     run.layer("row-budget", "mc.props.c03:eval_case", cases, chunk=1, total=len(cases))
     run.extra["traces_validated_against_impl"] = run.evaluations
     for need in ("pages_exactly_full", "single_row_overflow_pages", "bfs_fixpoint_reached"):
